@@ -235,14 +235,14 @@ ADD = {
            "sequences over all body-opening tags) are decided by that pipeline and rendered by the real code; delimiter-free templates of 12 sizes through the recording, memory and filesystem loaders.",
     "C04": " Binding T: seeded random operator chains are rendered by the real code and judged by C04_Trace.tla (reference parser + executor); the unparenthesised form is also rendered with no blank between an alphabetic operator and a sign, quote or bracket, and both spellings are compared where the expression is a condition (if, elseif, for-if, set, ?:).",
     "C05": RANDOM + " String equality/membership on strings a number parser would accept and ordering of numeric strings are families of their own, as is membership of fractions, numerals and computed needles in inclusive ranges and arrays.", "C06": RANDOM + " Byte-level family C06_Src.tla: " + SRC + "every balanced fragment sequence of a grammar (TLC checks the parser accepts exactly those) and one-deletion variants.",
-    "C07": RANDOM, "C08": RANDOM + " Failing leaves inside every nesting of captures; every render case of every check runs a second time into a *bytes.Buffer.", "C09": " Header forms of extends/use/block are replayed from source bytes (Tags_Src.tla).",
+    "C07": RANDOM, "C08": RANDOM + " Failing leaves inside every nesting of captures; every render case of every check runs a second time into a *bytes.Buffer; blocks that render themselves through block() under a counter are replayed from source bytes (Tags_Src.tla).", "C09": " Header forms of extends/use/block are replayed from source bytes (Tags_Src.tla).",
     "C10": RANDOM + " The with-hash is a literal, a host variable, a Go map and a Go map behind a pointer.", "C11": RANDOM,
-    "C12": " Escaped segments are expanded by TLC with the reference escapers of Escape.tla (not with the escaper under test); a concurrent phase parses templates of four content types from 16 goroutines on one environment; filters of the twig package (replace, upper) applied to values marked safe.",
+    "C12": " Escaped segments are expanded by TLC with the reference escapers of Escape.tla (not with the escaper under test); one source under five names on one environment, each call compared with the same call on an environment of its own; a concurrent phase parses templates of four content types from 16 goroutines on one environment; filters of the twig package (replace, upper) applied to values marked safe.",
     "C13": " The same inputs go through the escapers a Twig environment registers and through its escape filter on values marked safe for another content type, and through an explicit escape('<strategy>') printed in a template named for another content type.",
     "C15": " The value is also used as a number by a template (v + 0, ordering against 1.25) and compared with the coerced number.",
     "C16": " Every lookup is also written c[k] in a template (the template sees GetAttr's element, null on error); the Twig length filter and 'in' are compared with the traversal.",
     "C17": " Random programs with write and load faults are validated by C17_Trace.tla; 21 unparseable sources reached through every loading construct; load faults include templates whose contents cannot be read to the end; every program also runs through MemoryLoader and FilesystemLoader and into a *bytes.Buffer (macros failing part-way whose result is assigned, concatenated, filtered).",
-    "C18": " Gated runs: a blocking user function holds all callers at the same point inside Execute (nine gated templates); runs with the library's FilesystemLoader; values shared between callers; per-caller objects with pointer-receiver methods; calls that fail part-way inside a macro, capture, filter section or block(); a caching loader that re-serves Template values.",
+    "C18": " Every call is compared with the same call made alone on an environment of its own; a user function that re-wraps safe values through the public constructors runs under the race detector. Gated runs: a blocking user function holds all callers at the same point inside Execute (nine gated templates); runs with the library's FilesystemLoader; values shared between callers; per-caller objects with pointer-receiver methods; calls that fail part-way inside a macro, capture, filter section or block(); a caching loader that re-serves Template values.",
     "C19": " LexChan.tla has a buffered-channel variant (Cap) with its own negative configuration; all goroutines are counted at quiescence (also after a template that was read to its end and then refused for its depth); bonus: LexChanInd.tla restates the protocol for streams of any length and Apalache proves its invariant inductive.",
     "C20": " Byte-level family C20_Src.tla: " + SRC + "block structure of every tag kind (acceptance and the position of the offending tag name); sources reach the parser through the library's own loaders in two thirds of the cases; two-word operators split by other white space; 8 multi-line templates cut at every byte, where the reported position must be one of the anchors computed from Lexer.tla's tokens.",
 }
